@@ -138,7 +138,7 @@ func (w *srvWorld) runScript(name string, ops []Op) {
 				w.expectResponse(name, oi, c, strings.Split(id, "+"))
 			}
 		case "I":
-			fr, err := ReadFrame(c)
+			fr, err := c.RecvFrame()
 			if err != nil {
 				mc.Failf("no-invalid-message-response: %s op %d: %v", name, oi, err)
 				return
@@ -157,14 +157,14 @@ func (w *srvWorld) runScript(name string, ops []Op) {
 				return
 			}
 		case "RO": // after a half-close: zero or one (correct) response, then end of stream
-			fr, err := ReadFrame(c)
+			fr, err := c.RecvFrame()
 			if err == nil {
 				var resp kmip.ResponseMessage
 				if err := ttlv.UnmarshalTTLV(fr, &resp); err != nil || len(resp.BatchItem) != 1 || string(resp.BatchItem[0].UniqueBatchItemID) != op.IDs[0] {
 					mc.Failf("wrong-response-order: %s op %d: unexpected response after half-close", name, oi)
 					return
 				}
-				if _, err := ReadFrame(c); err == nil {
+				if _, err := c.RecvFrame(); err == nil {
 					mc.Failf("extra-data: %s op %d: second response after half-close", name, oi)
 					return
 				}
@@ -184,7 +184,7 @@ func (w *srvWorld) runScript(name string, ops []Op) {
 }
 
 func (w *srvWorld) expectResponse(name string, oi int, c *Conn, ids []string) {
-	fr, err := ReadFrame(c)
+	fr, err := c.RecvFrame()
 	if err != nil {
 		mc.Failf("missing-response: %s op %d: expected response to %v, got %v", name, oi, ids, err)
 		return
